@@ -454,6 +454,7 @@ package lnwallet
 //@   site return nil as theirs: assert (their0 <= 1<<61 && -(1<<61) <= dr && dr <= 1<<61 && (!isInit ==> fee3 <= 1<<50 && fee3 >= 0)) ==>
 //@        result1 == their0 + ite(isInit, 0, fee3 * 1000) + dr
 //@   site return nil as nonneg: assert result0 < 1<<63 && result1 < 1<<63
+//@   site call HtlcIsDust: domain 0 <= arg(3) && arg(3) <= 1<<40
 //@   site call HtlcIsDust nth 0: assert arg(0) == lc.channelState.ChanType && !arg(1) && arg(2) == whoseCommitChain &&
 //@        arg(5) == ite(whoseCommitChain == lntypes.Remote, old(lc.channelState.RemoteChanCfg.DustLimit), old(lc.channelState.LocalChanCfg.DustLimit))
 //@   site call HtlcIsDust nth 1: assert arg(0) == lc.channelState.ChanType && arg(1) && arg(2) == whoseCommitChain &&
@@ -464,7 +465,8 @@ package lnwallet
 //@
 //@ func (cb *CommitmentBuilder) createUnsignedCommitmentTx
 //@   props C01
-//@   requires cb != nil && filteredHTLCView != nil
+//@   requires cb != nil && filteredHTLCView != nil && 0 <= feePerKw && feePerKw <= 1<<40
+//@   site call FeeForWeight: domain 0 <= numHTLCs && numHTLCs <= 1000
 //@   loop * havoc
 //@   let isInit = old(cb.chanState.IsInitiator)
 //@   let dust = ite(whoseCommit == lntypes.Remote, old(cb.chanState.RemoteChanCfg.DustLimit), old(cb.chanState.LocalChanCfg.DustLimit))
@@ -493,6 +495,7 @@ package lnwallet
 //@
 //@ func HtlcIsDust
 //@   props C01
+//@   requires 0 <= feePerKw && feePerKw <= 1<<40
 //@   let successTx = (incoming && whoseCommit == lntypes.Local) || (!incoming && whoseCommit == lntypes.Remote)
 //@   site call HtlcSuccessFee: assert successTx && arg(0) == chanType && arg(1) == feePerKw
 //@   site call HtlcTimeoutFee: assert !successTx && (whoseCommit == lntypes.Local || whoseCommit == lntypes.Remote) &&
@@ -514,6 +517,7 @@ package lnwallet
 //@ func genRemoteHtlcSigJobs
 //@   props C01
 //@   requires chanState != nil && keyRing != nil && remoteCommitView != nil
+//@   requires 0 <= remoteCommitView.feePerKw && remoteCommitView.feePerKw <= 1<<40
 //@   loop * havoc
 //@   site call HtlcIsDust nth 0: assert arg(0) == old(chanState.ChanType) && arg(1) && arg(2) == lntypes.Remote && arg(3) == old(remoteCommitView.feePerKw) &&
 //@        arg(4) == fdiv(htlc.Amount, 1000) && arg(5) == old(chanState.RemoteChanCfg.DustLimit)
@@ -527,3 +531,24 @@ package lnwallet
 //@        arg(2).Index == wrap(htlc.remoteOutputIndex, 32) && arg(3) == swrap(fdiv(htlc.Amount, 1000) - ret(HtlcSuccessFee), 64) &&
 //@        arg(4) == old(chanState.RemoteChanCfg.CsvDelay) && arg(5) == leaseExpiry &&
 //@        arg(6) == keyRing.RevocationKey && arg(7) == keyRing.ToLocalKey
+//@
+//@ func HtlcTimeoutFee
+//@   props C01
+//@   requires 0 <= feePerKw && feePerKw <= 1<<40
+//@   ensures (chanType.ZeroHtlcTxFee() || chanType.IsTaproot()) ==> result == 0
+//@   ensures !(chanType.ZeroHtlcTxFee() || chanType.IsTaproot()) ==>
+//@           result == fdiv(feePerKw * ite(chanType.HasAnchors(), input.HtlcTimeoutWeightConfirmed, input.HtlcTimeoutWeight), 1000)
+//@   modifies nothing
+//@
+//@ func HtlcSuccessFee
+//@   props C01
+//@   requires 0 <= feePerKw && feePerKw <= 1<<40
+//@   ensures (chanType.ZeroHtlcTxFee() || chanType.IsTaproot()) ==> result == 0
+//@   ensures !(chanType.ZeroHtlcTxFee() || chanType.IsTaproot()) ==>
+//@           result == fdiv(feePerKw * ite(chanType.HasAnchors(), input.HtlcSuccessWeightConfirmed, input.HtlcSuccessWeight), 1000)
+//@   modifies nothing
+//@
+//@ func CommitWeight
+//@   props C01
+//@   ensures result == ite(chanType.IsTaproot(), input.TaprootCommitWeight, ite(chanType.HasAnchors(), input.AnchorCommitWeight, input.CommitWeight))
+//@   modifies nothing
